@@ -100,7 +100,29 @@ func (c RuleLinkCheck) Check(ctx context.Context, entry discovery.Entry, _ []dis
 		rctx, cancel := context.WithTimeout(ctx, c.timeout)
 		defer cancel()
 
-		req, _ := http.NewRequestWithContext(rctx, http.MethodGet, uri, nil)
+		req, err := http.NewRequestWithContext(rctx, http.MethodGet, uri, nil)
+		if err != nil {
+			problems = append(problems, Problem{
+				Anchor: AnchorAfter,
+				Lines: diags.LineRange{
+					First: ann.Key.Pos.Lines().First,
+					Last:  ann.Value.Pos.Lines().Last,
+				},
+				Reporter: c.Reporter(),
+				Summary:  "link check failed",
+				Details:  maybeComment(c.comment),
+				Diagnostics: []diags.Diagnostic{
+					{
+						Message:     fmt.Sprintf("GET request for %s returned an error: %s.", uri, err),
+						Pos:         ann.Value.Pos,
+						FirstColumn: 1,
+						LastColumn:  len(ann.Value.Value),
+					},
+				},
+				Severity: c.severity,
+			})
+			continue
+		}
 
 		for k, v := range c.headers {
 			req.Header.Set(k, v)
